@@ -226,72 +226,126 @@ class Worker:
             self.proc.kill()
 
 
+class Pool:
+    """Persistent pool of workers keyed by hash class.  The result of a unit
+    depends only on the unit itself (each is executed in a forked child of a
+    worker that never runs code under test itself), so outputs are identical
+    for any worker count."""
+
+    def __init__(self, world: str, nproc: int | None = None):
+        self.world = world
+        if nproc is None:
+            nproc = int(os.environ.get("VERIF_NPROC", os.cpu_count() or 4))
+        self.nproc = max(1, nproc)
+        self.workers: dict[int, list[Worker]] = {}
+        self.lock = threading.Lock()
+
+    def _ensure(self, alloc: dict[int, int]):
+        need = []
+        for k, n in alloc.items():
+            have = len(self.workers.setdefault(k, []))
+            need += [k] * max(0, n - have)
+        if not need:
+            return
+        # make room: close idle workers of classes not needed now
+        total = sum(len(v) for v in self.workers.values())
+        if total + len(need) > self.nproc + len(alloc):
+            for k in list(self.workers):
+                if k not in alloc:
+                    for w in self.workers.pop(k):
+                        w.close()
+        errs = []
+
+        def spawn(k):
+            try:
+                w = Worker(self.world, hash_seed_of_class(k))
+                with self.lock:
+                    self.workers[k].append(w)
+            except Exception as e:  # pragma: no cover
+                errs.append(e)
+
+        ts = [threading.Thread(target=spawn, args=(k,)) for k in need]
+        for t in ts:
+            t.start()
+        for t in ts:
+            t.join()
+        if errs:
+            raise HarnessError(str(errs[0]))
+
+    def map(self, units: list[dict], progress=None) -> list[dict]:
+        if not units:
+            return []
+        classes = sorted({u["hash_class"] for u in units})
+        per_class = {
+            k: [i for i, u in enumerate(units) if u["hash_class"] == k]
+            for k in classes
+        }
+        total = len(units)
+        alloc = {
+            k: min(len(per_class[k]),
+                   max(1, round(self.nproc * len(per_class[k]) / total)))
+            for k in classes
+        }
+        while sum(alloc.values()) > max(self.nproc, len(classes)):
+            kmax = max(alloc, key=lambda k: alloc[k])
+            if alloc[kmax] == 1:
+                break
+            alloc[kmax] -= 1
+        self._ensure(alloc)
+        results: list = [None] * len(units)
+        errors: list = []
+        queues = {k: queue.Queue() for k in classes}
+        for k in classes:
+            for i in per_class[k]:
+                queues[k].put(i)
+        done = [0]
+
+        def serve(k, wk):
+            try:
+                while not errors:
+                    try:
+                        i = queues[k].get_nowait()
+                    except queue.Empty:
+                        break
+                    results[i] = wk.run(units[i])
+                    with self.lock:
+                        done[0] += 1
+                        if progress:
+                            progress(done[0], len(units))
+            except Exception as e:
+                errors.append(e)
+
+        threads = []
+        for k in classes:
+            for wk in self.workers[k][: alloc[k]]:
+                t = threading.Thread(target=serve, args=(k, wk), daemon=True)
+                t.start()
+                threads.append(t)
+        for t in threads:
+            t.join()
+        if errors:
+            raise HarnessError(str(errors[0]))
+        if any(r is None for r in results):
+            raise HarnessError("some units were not executed")
+        return results
+
+    def close(self):
+        for ws in self.workers.values():
+            for w in ws:
+                w.close()
+        self.workers = {}
+
+    def __enter__(self):
+        return self
+
+    def __exit__(self, *a):
+        self.close()
+
+
 def run_units(world: str, units: list[dict], nproc: int | None = None,
               progress=None) -> list[dict]:
-    """Execute units (each has 'hash_class') on a pool of fresh interpreters.
-    The result of a unit depends only on the unit itself (each is executed in
-    a forked child of a worker that never runs code under test itself), so
-    the output is identical for any worker count."""
-    if nproc is None:
-        nproc = int(os.environ.get("VERIF_NPROC", os.cpu_count() or 4))
-    classes = sorted({u["hash_class"] for u in units})
-    if not classes:
-        return []
-    per_class = {k: [i for i, u in enumerate(units) if u["hash_class"] == k]
-                 for k in classes}
-    # allocate workers to classes proportionally to their load (>=1 each)
-    total = len(units)
-    alloc = {k: max(1, round(nproc * len(per_class[k]) / total))
-             for k in classes}
-    while sum(alloc.values()) > max(nproc, len(classes)):
-        kmax = max(alloc, key=lambda k: alloc[k])
-        if alloc[kmax] == 1:
-            break
-        alloc[kmax] -= 1
-    results: list = [None] * len(units)
-    errors: list = []
-    queues = {k: queue.Queue() for k in classes}
-    for k in classes:
-        for i in per_class[k]:
-            queues[k].put(i)
-    done = [0]
-    lock = threading.Lock()
-
-    def serve(k):
-        try:
-            wk = Worker(world, hash_seed_of_class(k))
-        except Exception as e:  # pragma: no cover
-            errors.append(e)
-            return
-        try:
-            while not errors:
-                try:
-                    i = queues[k].get_nowait()
-                except queue.Empty:
-                    break
-                results[i] = wk.run(units[i])
-                with lock:
-                    done[0] += 1
-                    if progress:
-                        progress(done[0], len(units))
-        except Exception as e:
-            errors.append(e)
-        finally:
-            wk.close()
-
-    threads = []
-    for k in classes:
-        for _ in range(alloc[k]):
-            t = threading.Thread(target=serve, args=(k,), daemon=True)
-            t.start()
-            threads.append(t)
-    for t in threads:
-        t.join()
-    if errors:
-        raise HarnessError(str(errors[0]))
-    if any(r is None for r in results):
-        raise HarnessError("some units were not executed")
-    return results
+    with Pool(world, nproc) as p:
+        return p.map(units, progress)
 
 
 # ---------------------------------------------------------------------------
